@@ -262,7 +262,22 @@ fn rule_for(c: &mut Chooser, names: &Names, head: &Pred, lower: &[Pred], negatab
     if c.flag(2, 5) {
         let v = *c.pick(&vars);
         let rhs = small_term(c, names, vars[vars.len() - 1]);
-        body.push(cmp(var(v), *c.pick(&RELS), rhs));
+        let rel = *c.pick(&RELS);
+        // one comparison in three is written the other way round (`c != X`, `n + 1 >= X`): the same
+        // condition with the constant or placeholder as the leading term (choice vectors shorter than
+        // 184 predate this and keep their meaning)
+        if c.data.len() >= 184 && c.aux(120 + body.len() as u64, 3) == 0 {
+            let mirrored = match rel {
+                asp::Relation::Less => asp::Relation::Greater,
+                asp::Relation::LessEqual => asp::Relation::GreaterEqual,
+                asp::Relation::Greater => asp::Relation::Less,
+                asp::Relation::GreaterEqual => asp::Relation::LessEqual,
+                r => r,
+            };
+            body.push(cmp(rhs, mirrored, var(v)));
+        } else {
+            body.push(cmp(var(v), rel, rhs));
+        }
     }
     let head_arg = match c.next(6) {
         0 => binop(asp::BinaryOperator::Add, var("X"), num(1)),
@@ -614,6 +629,24 @@ pub fn ug_assumptions(c: &mut Chooser, names: &Names) -> Vec<fol::AnnotatedFormu
                 fnum(c.next(2) as isize),
             );
             out.push(annotated(fol::Role::Assumption, fol::Direction::Universal, "n_bound", f));
+        }
+    }
+    // an assumption that keeps a symbolic constant out of an input (`forall X (in(X) -> X != c)`): the
+    // user guide's assumptions come first in every problem, so a constant can occur there before any
+    // other formula mentions it (choice vectors shorter than 184 predate this)
+    if c.data.len() >= 184 && !names.symbols.is_empty() && c.aux(140, 3) == 0 {
+        let p = names.inputs[c.aux(141, names.inputs.len())].clone();
+        if p.1 == 1 {
+            let s = names.symbols[c.aux(142, names.symbols.len())].clone();
+            let f = fforall(
+                "X",
+                fbin(
+                    fol::BinaryConnective::Implication,
+                    fatom(&p, fvar("X")),
+                    fcmp(fvar("X"), fol::Relation::NotEqual, fol::GeneralTerm::SymbolicTerm(fol::SymbolicTerm::Symbol(s))),
+                ),
+            );
+            out.push(annotated(fol::Role::Assumption, fol::Direction::Universal, "", f));
         }
     }
     // an assumption relating two placeholders
